@@ -1,1 +1,44 @@
 // Kani harnesses compiled as `mod verif_kani` inside /repo/src/commons/queue.rs (cfg(kani) only).
+//
+// Kernel: Queue::split_storage_key (parses keys found in the task store).
+use super::*;
+
+fn check_split<const N: usize>() {
+    let buf: [u8; N] = kani::any();
+    let len: usize = kani::any();
+    kani::assume(len <= N);
+    // keys come out of the store as `Ident`s: the ident check is the
+    // documented precondition (and is itself real code under test)
+    let Ok(id) = Ident::from_bytes(&buf[..len]) else { return };
+    let r = Queue::split_storage_key(id);
+    if let Some((ts, name)) = r {
+        assert!(!name.as_str().is_empty());
+        // name is a suffix of the key after the first separator
+        assert!(name.as_bytes().len() < len);
+        assert!(buf[len - name.as_bytes().len() - 1] == b'-');
+        // N-2 digits at most
+        assert!(ts < 1_000_000_000);
+    }
+    kani::cover!(r.is_some());
+    kani::cover!(r.is_none());
+}
+
+/// For every key of up to 6 bytes: no panic, and an accepted key really is
+/// "<digits>-<non-empty name>".
+// vk: bound=keys of 0..=6 arbitrary bytes
+#[kani::proof]
+#[kani::unwind(8)]
+fn c16d_split_storage_key_6() {
+    check_split::<6>();
+}
+
+// vk: bound=keys of 0..=8 arbitrary bytes
+#[kani::proof]
+#[kani::unwind(10)]
+fn c16d_split_storage_key_8() {
+    check_split::<8>();
+}
+
+#[cfg(test)]
+#[path = "/verif/.cache/playback/commons_queue.rs"]
+mod playback;
